@@ -254,6 +254,10 @@ func frameLemma(idx int, p string) {
 	}
 	verifrt.Cover("frame/accepted")
 	switch p {
+	case "C04":
+		verifrt.Assert("C04/frame/no-other-transaction-mints", len(h.Env.FTF.Mints) == 0)
+	case "C05":
+		verifrt.Assert("C05/frame/no-other-transaction-moves-funds", verifrt.All(len(h.Env.Bank.Calls) == 0, len(h.Env.FTF.Burns) == 0))
 	case "C11":
 		untouched := true
 		for s := 0; s < 5; s++ {
@@ -287,4 +291,21 @@ func frameLemma(idx int, p string) {
 			verifrt.Any(idx == hReceiveMessage, !wrote(ws, h.usedKey(d2, n2))),
 		))
 	}
+}
+
+// adminIgnoresFlags: a privileged transaction's outcome does not depend on the pause flags (C12:
+// administrative actions stay available while paused). The same request is run on two states that
+// differ only in the two flags.
+func adminIgnoresFlags(idx int) {
+	h1 := newH("")
+	h1.setupAdminState(1)
+	from := nondetSubmitter()
+	h1.Env.BeginTx()
+	ok1, _ := h1.callAdmin(idx, from)
+	h2 := newH("_b")
+	h2.setupAdminState(1)
+	h2.Env.BeginTx()
+	ok2, _ := h2.callAdmin(idx, from)
+	verifrt.Cover("compared")
+	verifrt.Assert("C12/admin/outcome-independent-of-pause-flags", ok1 == ok2)
 }
